@@ -148,6 +148,10 @@ def native_workspaces(chk, oracle, limit, rename=False):
     return len(asg), nq
 
 
+TWIN_WS = {'files': [{'path': '/app/src/shapes.gleam', 'text': 'pub type Shape { Dot }\npub const unit = 1\npub fn area(s: Shape) { unit }\n', 'root': 0},
+                     {'path': '/app/src/util.gleam', 'text': 'import shapes.{type Shape, Dot}\npub fn a(s: Shape) { shapes.area(Dot) + shapes.unit }\n', 'root': 0},
+                     {'path': '/app/test/util.gleam', 'text': 'import shapes.{type Shape, Dot}\npub fn b(s: Shape) { shapes.area(Dot) + shapes.unit }\n', 'root': 0}],
+           'roots': [{'path': '/app', 'local': True, 'deps': []}]}
 FIX_FIXTURE = 'pub fn f(x) { let #(y, ..rest) = x\n case y { [h, ..t] as w -> #(h, t, w, rest) } }\n'
 
 
@@ -192,6 +196,20 @@ def main(tier, seed):
         probs = invk.check_inverse(ent) if ent is not None else [str(err)]
         if probs:
             chk.violation('inverse:spread-binder', 'fixture', 'program %r: %s' % (FIX_FIXTURE, probs[0][:400]), {'kind': 'fixture', 'text': FIX_FIXTURE}, confirmed=True)
+        else:
+            chk.validated += 1
+        # two files of one package with the same module name (src/util.gleam, test/util.gleam): both are searched
+        ent, err = invk.inverse_entries(oracle, TWIN_WS)
+        probs = invk.check_inverse(ent) if ent is not None else [str(err)]
+        if probs:
+            chk.violation('inverse:twin-module', 'fixture', 'workspace src/shapes.gleam, src/util.gleam, test/util.gleam (two files with the module name util): %s' % probs[0][:500], {'kind': 'fixture-ws', 'ws': 'twin'}, confirmed=True)
+        else:
+            chk.validated += 1
+        # labels shared by the first variant and a later one: references by construction
+        ent, err = invk.inverse_entries(oracle, single_file_ws(invk.LABEL_TEXT))
+        probs = invk.check_inverse(ent, invk.label_expected()) if ent is not None else [str(err)]
+        if probs:
+            chk.violation('inverse:variant-labels', 'fixture', 'program %r: %s' % (invk.LABEL_TEXT, probs[0][:500]), {'kind': 'fixture', 'text': invk.LABEL_TEXT}, confirmed=True)
         else:
             chk.validated += 1
         native_problems = len(chk.viol) - nviol0
